@@ -46,7 +46,7 @@ PROPS = {
     },
     'C18': {
         'engine': 'netsim',
-        'quick': {'runs': 6000, 'steps': (20, 60), 'deadline_s': 50, 'chunk': 100, 'seed': 18},
+        'quick': {'runs': 20000, 'steps': (20, 60), 'deadline_s': 60, 'chunk': 200, 'seed': 18},
         'thorough': {'runs': 400000, 'steps': (20, 80), 'deadline_s': 600, 'chunk': 500, 'seed': 1018},
         'rule': ('one evaluation = one simulated history of rewiring operations (each generated only '
                  'when its stated precondition holds) on 2-6 stub units and 3-10 streams; distinct = '
@@ -59,7 +59,7 @@ PROPS = {
     },
     'C19': {
         'engine': 'netsim',
-        'quick': {'runs': 2500, 'steps': (4, 10), 'deadline_s': 60, 'chunk': 50, 'seed': 19},
+        'quick': {'runs': 10000, 'steps': (4, 10), 'deadline_s': 60, 'chunk': 100, 'seed': 19},
         'thorough': {'runs': 150000, 'steps': (6, 16), 'deadline_s': 600, 'chunk': 200, 'seed': 1019},
         'rule': ('one evaluation = one random connected flowsheet (2-10 units, 1-3 ports, 0-3 back '
                  'edges) rebuilt under several (unit-list permutation, seeded hash table) pairs; '
@@ -70,8 +70,8 @@ PROPS = {
     },
     **{p: {
         'engine': 'streamsim',
-        'quick': {'runs': 1500, 'steps': (20, 50), 'deadline_s': 60, 'chunk': 25, 'seed': int(p[1:])},
-        'thorough': {'runs': 60000, 'steps': (20, 80), 'deadline_s': 600, 'chunk': 100, 'seed': 1000 + int(p[1:])},
+        'quick': {'runs': 4000, 'steps': (20, 50), 'deadline_s': 70, 'chunk': 50, 'seed': int(p[1:])},
+        'thorough': {'runs': 100000, 'steps': (20, 80), 'deadline_s': 700, 'chunk': 100, 'seed': 1000 + int(p[1:])},
         'rule': ('one evaluation = one simulated history of public-API calls issued by stub unit operations on '
                  '3-7 (+ derived) real streams over three property packages; distinct = distinct abstract '
                  'universe states after a step (per stream: origin, single/multi, phase set, which phases hold '
